@@ -365,7 +365,8 @@ def execute(record: dict, rng: Optional[random.Random]) -> Outcome:
     data = make_data(shape, dtype, [src_nd, dst_nd, fv])
     if dtype in ("int8", "bool"):
         probes["int8_or_bool_detour"] = 1
-    OD.uuid4 = _seeded_uuid(cfg["uuid_seed"])
+    if hasattr(OD, "uuid4"):
+        OD.uuid4 = _seeded_uuid(cfg["uuid_seed"])
     sims: List[DaskSim] = []
     v: Optional[Violation] = None
     outs: List[np.ndarray] = []
@@ -435,7 +436,9 @@ def execute(record: dict, rng: Optional[random.Random]) -> Outcome:
     steps = sum(s.steps for s in sims)
     order = tuple(tuple(s.order) for s in sims)
     cls = (str(record["workload"]), cfg["dtype"], cfg["src_nodata"], cfg["dst_nodata"], cfg["tdim"], cfg["resampling"], tuple(cfg["src_chunks"]), tuple(cfg["dst_chunks"]), order, tuple(ch.faults_out))
-    n_reproject = sum(1 for s in sims for c in s.order if "reproject" in str(c[0]))
+    dy_, dx_ = cfg["dst_chunks"]
+    n_dst_chunks = -(-dst["shape"][0] // dy_) * -(-dst["shape"][1] // dx_)
+    n_reproject = (n_dst_chunks if len(sims) == 2 else 0) + 2  # layer names are not relied upon
     sample = {
         "config": {k: v_ for k, v_ in cfg.items() if k != "dask"},
         "dask": cfg["dask"],
